@@ -722,7 +722,7 @@ KASTS = {k: (v[0], gqlfront.parse(v[0])) for k, v in KASTS.items()}
 
 @obligation(tier="quick", timeout=120, shards=[{"t": t} for t in ACCEPTS],
             samples=[{"n": 5, "kind": 0, "pos": 0}, {"n": 7, "kind": 2, "pos": 1}, {"n": 2 ** 31, "kind": 0, "pos": 1}, {"n": 0, "kind": 4, "pos": 1}, {"n": -1, "kind": 1, "pos": 1}, {"n": 3, "kind": 3, "pos": 0}],
-            symbolic=["n: int (unbounded) — the value of the Int literal (text abstracted as int(text)=n)"],
+            symbolic=["n: int (unbounded at Int/Float argument positions; three representatives by range elsewhere) — the value of the Int literal (text abstracted as int(text)=n)"],
             selectors=["kind: Int / Float / String / Boolean / Enum literal", "pos: argument value / default value of a variable that gets no runtime value", "shard: declared scalar"],
             bounds="5 scalars x 5 literal kinds x 2 positions",
             note="a literal is accepted exactly when its KIND is one the scalar's input coercion admits (Int: Int; Float: Int, Float; String: String; ID: String, Int; Boolean: Boolean) and, "
@@ -738,6 +738,11 @@ def c10_literal_kinds(n: int, kind: int, pos: int) -> bool:
     if kname == "int":
         if t == "Float":
             n = pick(n, 5) * 1000003 - 2000006      # as in c10_literal_eq_variable: float(<symbolic int>) predicates realise
+        if t in ("ID", "String"):
+            n = 12345678901234567890 if n > 0 else -7          # str(<symbolic int>) realises (as in c10_echo): two concrete representatives
+        elif pos == 1 or t == "Boolean":
+            # a refused default / wrong-kind literal is quoted in the error message (str(<symbolic int>) realises, one path per value): three representatives by range
+            n = 5 if -2 ** 31 <= n < 2 ** 31 else (2 ** 31 if n > 0 else -2 ** 31 - 1)
         ast = subst_int(ast, n)
     del SEEN[:]
     old = env.FFI._parse_to_json_ast
